@@ -82,16 +82,20 @@ def tdDays (a : Int) : Int := a / usDay
 /-! ### once -/
 
 /-- the second `parse_date_time` call of `once(...)` -/
-def onceSecond (P : Params) (d : DTSpec) (now startup : Int) (first : Int × Bool) : Option (Int × Bool) :=
+def onceSecond (byValue : Bool) (P : Params) (d : DTSpec) (now startup : Int) (first : Int × Bool) : Option (Int × Bool) :=
   let dayOffset := tdDays (now - first.1) + 1
-  if dayOffset != 0 && first.1 != startup then parseDT P.base d dayOffset now startup else some first
+  -- since the fix of C06-F3: `if day_offset != 0 and not (now == this_t and now == startup_time)`;
+  -- before (`byValue`): `if day_offset != 0 and this_t != startup_time`
+  if dayOffset != 0 && (if byValue then first.1 != startup else !(now == first.1 && now == startup)) then
+    parseDT P.base d dayOffset now startup
+  else some first
 
 /-- candidate instant of one `once(...)`: outer `none` = raises, inner `none` = nothing to add -/
-def onceCand (P : Params) (d : DTSpec) (now startup : Int) : Option (Option Int) :=
+def onceCand (byValue : Bool) (P : Params) (d : DTSpec) (now startup : Int) : Option (Option Int) :=
   match parseDT P.base d 0 now startup with
   | none => none
   | some first =>
-    match onceSecond P d now startup first with
+    match onceSecond byValue P d now startup first with
     | none => none
     | some r => some (if now < r.1 || (now == r.1 && now == startup) then some r.1 else none)
 
@@ -108,14 +112,22 @@ structure TFlags where
   /-- before fix b7a2f54: `CroniterBadDateError` of `cron_iter.get_next()` (a day that never occurs: 30 2) leaves
       `timer_trigger_next`; now: `except CroniterBadDateError: … continue` – the entry is skipped -/
   cronDeadRaises : Bool
+  /-- before the fix of C06-F11: a `ValueError` of the first `parse_date_time` of the start or the end of `period(...)` leaves
+      `timer_trigger_next`; now both are inside `try … except ValueError: … continue` – the entry is skipped -/
+  periodDateRaises : Bool
+  /-- before the fix of C06-F3: the day-offset re-parse of `once(...)` is suppressed whenever the first parse EQUALS the start-up
+      time (`this_t != startup_time`); now only at start-up itself (`not (now == this_t and now == startup_time)`) -/
+  startupByValue : Bool
 deriving DecidableEq, Repr
 
 /-- the oldest code (before the fixes c80f3bb and b7a2f54) -/
-def TFlags.preFix : TFlags := ⟨true, true, true⟩
+def TFlags.preFix : TFlags := ⟨true, true, true, true, true⟩
 /-- the code before fix b7a2f54 (after c80f3bb) -/
-def TFlags.preFixSkip : TFlags := ⟨false, true, true⟩
+def TFlags.preFixSkip : TFlags := ⟨false, true, true, true, true⟩
+/-- the code before the fixes of C06-F11 and C06-F3 (after b7a2f54) -/
+def TFlags.preFixPeriod : TFlags := ⟨false, false, false, true, true⟩
 /-- the code as it is -/
-def TFlags.current : TFlags := ⟨false, false, false⟩
+def TFlags.current : TFlags := ⟨false, false, false, false, false⟩
 
 def quot (F : TFlags) (P : Params) (a per : Int) : Int := if F.floatTick then P.fdiv a per else a / per
 
@@ -154,14 +166,14 @@ def periodWithEnd (F : TFlags) (P : Params) (startSpec stopSpec : DTSpec) (per n
 def periodStep (F : TFlags) (P : Params) (startSpec : DTSpec) (per : Int) (stop : Option DTSpec) (now startup : Int) (s : NT) :
     Option NT :=
   match parseDT P.base startSpec 0 now startup with
-  | none => none
+  | none => if F.periodDateRaises then none else some s     -- `except ValueError: … continue` (fix of C06-F11)
   | some st =>
     if per ≤ 0 then some s          -- "Invalid non-positive period": skipped
     else match stop with
       | none => some (periodNoEnd F P st.1 per now startup s)
       | some stopSpec =>
         match parseDT P.base stopSpec 0 now startup with
-        | none => none
+        | none => if F.periodDateRaises then none else some s
         | some en => periodWithEnd F P startSpec stopSpec per now startup st en s
 
 /-! ### cron -/
@@ -180,7 +192,7 @@ def cronFuel : Nat := 16
 
 def specStep (F : TFlags) (P : Params) (now startup : Int) (s : NT) : TSpec → Option NT
   | .once d =>
-    match onceCand P d now startup with
+    match onceCand F.startupByValue P d now startup with
     | none =>
       -- since b7a2f54 only the FIRST parse is inside `try … except ValueError: continue`; the re-parse with the day offset is not
       if !F.badDateRaises && (parseDT P.base d 0 now startup).isNone then some s else none
@@ -238,14 +250,25 @@ structure WFlags where
   /-- how far (µs) before the instant the re-check lets the function run: legacy `actual_now < time_next` → 0,
       new `if timeout <= 1e-6: break` → 1 -/
   slack : Int
+  /-- new subsystem since the fix of C06-F8: `now = dt_now(); if time_last is not None and now < time_last: now = time_last` –
+      the next computation never starts before the instant just dispatched -/
+  nowFloor : Bool
 deriving DecidableEq, Repr
 
 /-- `trigger_watch` as it is -/
-def WFlags.legacy : WFlags := ⟨false, 0⟩
-/-- `TimeTriggerDecorator._cycle` as it is (since fix 0421163) -/
-def WFlags.new : WFlags := ⟨false, 1⟩
+def WFlags.legacy : WFlags := ⟨false, 0, false⟩
+/-- `TimeTriggerDecorator._cycle` as it is (since fix 0421163 and the fix of C06-F8) -/
+def WFlags.new : WFlags := ⟨false, 1, true⟩
+/-- `TimeTriggerDecorator._cycle` before the fix of C06-F8 (after 0421163) -/
+def WFlags.newPreFloor : WFlags := ⟨false, 1, false⟩
 /-- `TimeTriggerDecorator._cycle` before fix 0421163 -/
-def WFlags.newPreFix : WFlags := ⟨true, 1⟩
+def WFlags.newPreFix : WFlags := ⟨true, 1, false⟩
+
+/-- the `now` the next computation starts from: the wall clock, but (new subsystem) not before the instant just dispatched -/
+def floorNow (W : WFlags) (last : Option Int) (w : Int) : Int :=
+  match last with
+  | some l => if W.nowFloor && w < l then l else w
+  | none => w
 
 /-- the re-check loop after the first sleep: real time at which the function is run -/
 def waitFire (W : WFlags) (Z : Zone) (next adj : Int) : Nat → Int → Int
@@ -256,14 +279,20 @@ def waitFire (W : WFlags) (Z : Zone) (next adj : Int) : Nat → Int → Int
     else r
 
 /-- the loops over real time: `(trigger_time, wall clock when the function runs, real time of the run)` -/
-def dstLoop (W : WFlags) (F : TFlags) (P : Params) (specs : List TSpec) (startup : Int) (Z : Zone) : Nat → Int → List (Int × Int × Int)
-  | 0, _ => []
-  | n + 1, r =>
-    match timerNext F P specs (wallAt Z r) startup with
+def dstLoopL (W : WFlags) (F : TFlags) (P : Params) (specs : List TSpec) (startup : Int) (Z : Zone) :
+    Nat → Int → Option Int → List (Int × Int × Int)
+  | 0, _, _ => []
+  | n + 1, r, last =>
+    match timerNext F P specs (floorNow W last (wallAt Z r)) startup with
     | some ⟨some t, some adj⟩ =>
-      (t, wallAt Z (waitFire W Z t adj 4 (r + max 0 (adj - wallAt Z r))), waitFire W Z t adj 4 (r + max 0 (adj - wallAt Z r))) ::
-        dstLoop W F P specs startup Z n (waitFire W Z t adj 4 (r + max 0 (adj - wallAt Z r)))
+      (t, wallAt Z (waitFire W Z t adj 4 (r + max 0 (adj - floorNow W last (wallAt Z r)))),
+          waitFire W Z t adj 4 (r + max 0 (adj - floorNow W last (wallAt Z r)))) ::
+        dstLoopL W F P specs startup Z n (waitFire W Z t adj 4 (r + max 0 (adj - floorNow W last (wallAt Z r)))) (some t)
     | _ => []
+
+def dstLoop (W : WFlags) (F : TFlags) (P : Params) (specs : List TSpec) (startup : Int) (Z : Zone) (n : Nat) (r : Int) :
+    List (Int × Int × Int) :=
+  dstLoopL W F P specs startup Z n r none
 
 /-! ### the decorator's arguments: "startup" / "shutdown" entries
 
